@@ -52,7 +52,9 @@ class C19Run(object):
         p = self.p
         n = simnet.net()
         n.seg_mode = p.get("seg", "whole")
-        pr = peermod.Peer(s, p["family"], p["script"], http10=p.get("http10", False))
+        pr = peermod.Peer(s, p["family"], p["script"], http10=p.get("http10", False), close_delimited=p.get("close_delimited", False))
+        if p.get("close_delimited"):
+            s.probe("healthy_replies_delimited_by_close")
         pr.start()
         self.peer = pr
         url = pr.url_base + ("/" if p["family"] == "tcp" else "")
@@ -232,7 +234,8 @@ class C19Scenario(object):
         n = rng.randint(1, 12)
         script = [rng.choice(peermod.SYMBOLS) for _ in range(n)]
         return {"family": rng.choice(["tcp", "unix"]), "script": script, "closed_write": rng.choice([0, 1, 2, "random"]),
-                "seg": rng.choice(["whole", "random", "small"]), "http10": rng.random() < 0.15, "variant": rng.randrange(4)}
+                "seg": rng.choice(["whole", "random", "small"]), "http10": rng.random() < 0.15, "variant": rng.randrange(4),
+                "close_delimited": rng.random() < 0.15}
 
     def run(self, program, decider, chooser=None):
         if program.get("variant") == 2:
@@ -385,9 +388,9 @@ def gen_ops(rng, depth, budget, palette=None):
 
 def gen_c18(rng):
     # a small palette of names per history, so that nested blocks redefine each other's headers
-    palette = rng.sample(["X-A", "X-Test", "User-Agent", "Content-Type", "Content-Length", "Authorization", "X-Num"], rng.randint(1, 3))
+    palette = rng.sample(["X-A", "X-Test", "User-Agent", "Content-Type", "Content-Length", "Authorization", "X-Num", "Content-Language", "Content-MD5"], rng.randint(1, 3))
     prog = {"family": rng.choice(["tcp", "unix"]), "ctor": gen_headers(rng, palette) if rng.random() < 0.7 else None,
-            "user_agent": rng.choice([None, "custom-agent/1.0"]), "content_type": rng.choice(["application/json-rpc", "application/json"]),
+            "user_agent": rng.choice([None, "custom-agent/1.0"]), "content_type": rng.choice(["application/json-rpc", "application/json", "application/json; charset=utf-8"]),
             "ops": gen_ops(rng, 0, [rng.randint(3, 10)], palette), "http10": rng.random() < 0.2,
             "credentials": rng.choice([None, None, "user:secret"])}
     return gen_c18_second(rng, prog, palette)
@@ -758,7 +761,7 @@ def gen_c17(rng):
         # the decoded body starts with {"jsonrpc": "2.0", "id": "<36 chars>", "result": " : about 70 bytes
         around = rng.choice([None, 1024 - 70, 2048 - 70, 1024 - 70, 3072 - 70, 500])
         return {"mode": "client", "family": rng.choice(["tcp", "unix"]), "path": path, "query": query,
-                "content_type": rng.choice(["application/json-rpc", "application/json", "application/jsonrequest"]),
+                "content_type": rng.choice(["application/json-rpc", "application/json", "application/jsonrequest", "application/json-rpc; charset=utf-8"]),
                 "backend": backend, "param": gen_text(rng), "result": gen_text(rng, around),
                 "encoding": rng.choice(["identity", "identity", "gzip", "chunked", "gzip-multi"]),
                 "seg": rng.choice(["whole", "random", "small"]), "http10": rng.random() < 0.5,
@@ -776,11 +779,11 @@ def gen_c17(rng):
         chunk = rng.choice([None, 1, 2, 3, 5, 7, 16, 64, 1000])
         return {"mode": "server", "kind": rng.choice(["plain", "pooled"]), "family": rng.choice(["tcp", "unix"]),
                 "chunk": chunk, "backend": backend, "param": gen_text(rng, rng.choice([None, 40, 7, 64])),
-                "content_type": rng.choice(["application/json-rpc", "application/json"]),
+                "content_type": rng.choice(["application/json-rpc", "application/json", "application/json; charset=utf-8"]),
                 "seg": rng.choice(["whole", "random", "small"]), "unbuffered": rng.random() < 0.3, "empty_body": rng.random() < 0.08, "notification": rng.random() < 0.12,
                 "pause": [rng.choice(["in-headers", "before-body", "in-body"]), rng.choice([2.0, 7.0, 30.0, 120.0])] if rng.random() < 0.2 else None}
     if k < 0.95:
-        return {"mode": "cgi", "backend": backend, "param": gen_text(rng), "content_type": rng.choice(["application/json-rpc", "application/json"]),
+        return {"mode": "cgi", "backend": backend, "param": gen_text(rng), "content_type": rng.choice(["application/json-rpc", "application/json", "application/json; charset=utf-8"]),
                 "via": rng.choice(["stdin", "stdin", "text"])}
     return {"mode": "scheme", "supplied_transport": rng.random() < 0.4, "scheme": rng.choice(["ftp", "ws", "file", "", "unix+ftp", "unix+https", "gopher", "httpx", "unix+", "mailto", "svn+http", "git+https", "tcp+http",
                                                       "unix+unix+http", "x-unix+http", "http+unix", "+http", "unix+http+x"])}
